@@ -24,6 +24,7 @@ func c06(c *Ctx) {
 	r.Decides("every access to the NodeAllocation ledgers happens under NodeAllocation.lock (write lock for writes)")
 	r.Decides("allocateCPUSet returns a CPU set under a required bind policy only after satisfiedRequiredCPUBindPolicy returned nil; that verifier returns nil only if the policy predicate held")
 	r.Decides("NodeAllocation.update is release+addPodAllocation unless a skip compares every field addPodAllocation uses for the ledgers; in takePreferredCPUs every CPU set offered to takeCPUs is derived from the free set by Intersection/Difference only, and the second offer excludes the first")
+	r.Decides("a pod delete that arrives as a tombstone (by value) releases the allocation like a plain delete")
 	r.Declines("exact count of CPUs, disjointness of CPU ids, never-more-than-free (set arithmetic over topologies)")
 	r.Declines("equality of the ledger with the sum of live pods' allocations over a history")
 
